@@ -51,6 +51,13 @@ Lines ==
      [kind |-> "assign",  line |-> "source_path=/x/src", opt |-> "source_path", val |-> "/x/src"],
      [kind |-> "assign",  line |-> "trim_path=/build", opt |-> "trim_path", val |-> "/build"],
      [kind |-> "assign",  line |-> "trim_path=/build/proj", opt |-> "trim_path", val |-> "/build/proj"],
+     \* source listings and disassembly read files and run tools: $SRCA / $SRCB are two directories the harness fills with
+     \* DIFFERENT sources under the file names of the profile; "disasm" histories run on a profile of a real binary
+     [kind |-> "assign",  line |-> "source_path=$SRCA", opt |-> "source_path", val |-> "$SRCA"],
+     [kind |-> "assign",  line |-> "source_path=$SRCB", opt |-> "source_path", val |-> "$SRCB"],
+     [kind |-> "assign",  line |-> "intel_syntax=true", opt |-> "intel_syntax", val |-> "true"],
+     [kind |-> "command", line |-> "list g",         opt |-> "", val |-> ""],
+     [kind |-> "command", line |-> "disasm main",    opt |-> "", val |-> ""],
      \* C09: lines the grammar must reject (or ignore) without any effect
      [kind |-> "bad",     line |-> "top >",          opt |-> "", val |-> ""],
      [kind |-> "bad",     line |-> "top (",          opt |-> "", val |-> ""],      \* invalid regexp
@@ -79,12 +86,16 @@ Idx(K) == {i \in DOMAIN Lines : Lines[i].kind \in K}
 MaxLen == IF Tier = "guard" THEN 2 ELSE 3
 C09Lines == Idx({"bad", "noop"})
 
-Opts == {"focus", "hide", "tagroot", "granularity", "nodecount", "sample_index", "sort", "noinlines", "taghide", "relative_percentages", "source_path", "trim_path"}
+Opts == {"focus", "hide", "tagroot", "granularity", "nodecount", "sample_index", "sort", "noinlines", "taghide", "relative_percentages", "source_path", "trim_path", "intel_syntax"}
 \* directed histories, longer than MaxLen: a report, a change of an option that only a LATER report can show, that report
 Directed == { <<"granularity=files", "source_path=/home/me/proj", "top", "source_path=/x/src", "top">>,
               <<"granularity=files", "trim_path=/build", "top", "trim_path=/build/proj", "top">>,
-              <<"lines=true", "source_path=/x/src", "top", "source_path=/home/me/proj", "tree h">> }
-OnlyDirected == {"source_path=/home/me/proj", "source_path=/x/src", "trim_path=/build", "trim_path=/build/proj"}
+              <<"lines=true", "source_path=/x/src", "top", "source_path=/home/me/proj", "tree h">>,
+              <<"source_path=$SRCA", "list g", "source_path=$SRCB", "list g">>,
+              <<"source_path=$SRCB", "list g", "trim_path=/build", "source_path=$SRCA", "list g">>,
+              <<"disasm main", "intel_syntax=true", "disasm main">> }
+OnlyDirected == {"source_path=/home/me/proj", "source_path=/x/src", "trim_path=/build", "trim_path=/build/proj",
+                 "source_path=$SRCA", "source_path=$SRCB", "intel_syntax=true", "list g", "disasm main"}
 Default == [o \in Opts |-> "default"]
 
 VARIABLES hist,      \* the lines typed so far (indices into Lines)
